@@ -3671,7 +3671,7 @@ EB_API EbErrorType svt_av1_enc_send_picture(
     EbComponentType      *svt_enc_component,
     EbBufferHeaderType   *p_buffer)
 {
-    if (svt_enc_component == NULL || svt_enc_component->p_component_private == NULL)
+    if (svt_enc_component == NULL || svt_enc_component->p_component_private == NULL || p_buffer == NULL)
         return EB_ErrorBadParameter;
     EbEncHandle          *enc_handle_ptr = (EbEncHandle*)svt_enc_component->p_component_private;
     EbObjectWrapper      *eb_wrapper_ptr;
@@ -3681,15 +3681,13 @@ EB_API EbErrorType svt_av1_enc_send_picture(
         enc_handle_ptr->input_buffer_producer_fifo_ptr,
         &eb_wrapper_ptr);
 
-    if (p_buffer != NULL) {
-        // Metadata is hardcoded to NULL until FFmpeg libsvtav1.c is compatible with new API
-        p_buffer->metadata = NULL;
+    // Metadata is hardcoded to NULL until FFmpeg libsvtav1.c is compatible with new API
+    p_buffer->metadata = NULL;
 
-        copy_input_buffer(
-            enc_handle_ptr->scs_instance_array[0]->scs_ptr,
-            (EbBufferHeaderType*)eb_wrapper_ptr->object_ptr,
-            p_buffer);
-    }
+    copy_input_buffer(
+        enc_handle_ptr->scs_instance_array[0]->scs_ptr,
+        (EbBufferHeaderType*)eb_wrapper_ptr->object_ptr,
+        p_buffer);
 
     svt_post_full_object(eb_wrapper_ptr);
 
